@@ -46,6 +46,7 @@ PROPERTY Act_C02_TradesValueNeutral
 PROPERTY Act_C03_FlowNeutral
 PROPERTY Act_C16_Terminal
 PROPERTY Act_C08_RefreshIdempotent
+VIEW View
 CHECK_DEADLOCK FALSE
 """
 
@@ -150,9 +151,13 @@ def classify(rep, prop, traces, verdicts, known_db):
             else:
                 for c in v["clauses"]:
                     other[common.clause_prop(c)] = other.get(common.clause_prop(c), 0) + 1
-    rep.extra["verdicts"] = counts
+    vc = rep.extra.setdefault("verdicts", {})
+    for k, x in counts.items():
+        vc[k] = vc.get(k, 0) + x
     if other:
-        rep.extra["failures_of_other_properties_seen"] = other
+        o = rep.extra.setdefault("failures_of_other_properties_seen", {})
+        for k, x in other.items():
+            o[k] = o.get(k, 0) + x
     return counts
 
 
@@ -207,6 +212,33 @@ def run(prop, tier, replay=None):
     rep.extra["clause_skips"] = sum(len(x) for x in st["skips"].values())
     classify(rep, prop, traces, verdicts, known_db)
     rep.cov["samples"] = [common.shorten_trace(t) for t in traces[:2]]
+    # spec -> code: behaviours generated by TLC's simulation of MC_BtAbs replayed step by step
+    SIM = {"C01": ("N1fix", 2), "C02": ("F2fix", 2), "C07": ("N1fix", 1), "C08": ("F2unit", 1), "C17": ("FIfix", 1), "C16": ("N1zero", 2)}
+    if prop in SIM:
+        import simreplay
+
+        which, sl = SIM[prop]
+        cfgv, beh, out, secs, ok = simreplay.simulate(which, 4, 3, sl, 40 if tier == "quick" else 600, 14, seed + 11)
+        if not ok or cfgv is None:
+            rep.machinery_errors.append("TLC simulation of MC_BtAbs %s failed: %s" % (which, out[-600:]))
+        else:
+            Cs = simreplay.C_from_tla(cfgv)
+            strs, drift = [], 0
+            for i, b in enumerate(beh):
+                t, m = simreplay.replay(Cs, b, 900000 + i)
+                strs.append(t)
+                drift += 1 if [x for x in m if x[0] != "raised"] else 0
+            try:
+                sv, sst = common.validate_parallel("Trace_BtAbs", [{"tid": t["tid"], "C": t["C"], "events": t["events"]} for t in strs])
+                rep.add_tlc(sst["generated"] + tlcrun.stats(out)[0], sst["distinct"] + tlcrun.stats(out)[1], key="simulate+validate:MC_BtAbs->code", config=which, behaviours=len(beh), seconds=round(secs + sst["seconds"], 1))
+                rep.cov["traces_validated_against_impl"] += len(sv)
+                for t in strs:
+                    t["lazy"] = False
+                classify(rep, prop, strs, sv, known_db)
+                rep.extra["tlc_behaviours_replayed"] = len(beh)
+                rep.extra["model_drift_behaviours"] = drift  # MaxQ-driven model state != real tree while the judge accepts: informational
+            except tlcrun.TlcError as e:
+                rep.machinery_errors.append(str(e)[:1500])
     # backtest-level stage: the same judge on programs run by the real Backtest
     BT = {"C16": ("bankrupt", (80, 1500)), "C03": ("flows", (60, 1200)), "C01": (["flat", "nested"], (40, 800)),
           "C02": (["flat", "nested", "flows"], (40, 800)), "C07": (["flat", "nested"], (40, 800)), "C08": (["flat", "nested"], (40, 800))}
